@@ -19,7 +19,7 @@ From stdpp Require Import gmap.
 From Coq Require Import Strings.String Strings.Ascii ZArith NArith Lia.
 From RV Require Import Base.Text Irc.Str Irc.Parse Irc.State Irc.Monad Irc.Cmds Irc.SCmds Irc.Apply.
 From RV Require Import IrcProofs.StrLemmas IrcProofs.Inv IrcProofs.Top IrcProofs.Outputs IrcProofs.Misc.
-From RV Require Import IrcProofs.ReloadInv IrcProofs.ReloadSim IrcProofs.Reload.
+From RV Require Import IrcProofs.Examples IrcProofs.ReloadInv IrcProofs.ReloadSim IrcProofs.Reload.
 Local Open Scope string_scope.
 
 Record KInv (Z : N -> Prop) (hi : N) (sv : server) : Prop := {
@@ -522,7 +522,7 @@ Proof.
 Qed.
 
 (* ---- the same output to every live session ------------------------------------------------------------------------------- *)
-Definition live (sv : server) (x : N) : Prop := is_Some (sv_sessions sv !! (x, 0%N)).
+Definition live_id (sv : server) (x : N) : Prop := is_Some (sv_sessions sv !! (x, 0%N)).
 
 (* entry by entry: the same kind of outcome and the same messages; a session that exists before or after the entry is
    a recipient of a message in one run iff it is in the other *)
@@ -533,7 +533,7 @@ Fixpoint live_equiv (e : env) (s1 s2 : server) (es : list entry) : Prop :=
       match apply_entry e s1 en, apply_entry e s2 en with
       | OOk s1' out1, OOk s2' out2 =>
           Forall2 (fun o1 o2 => o_reply o1 = o_reply o2 /\ o_data o1 = o_data o2 /\
-                                forall x, live s2 x \/ live s2' x -> (In x (o_rcpt o1) <-> In x (o_rcpt o2))) out1 out2 /\
+                                forall x, live_id s2 x \/ live_id s2' x -> (In x (o_rcpt o1) <-> In x (o_rcpt o2))) out1 out2 /\
           live_equiv e s1' s2' r
       | OSessionLimit s1', OSessionLimit s2' => live_equiv e s1' s2' r
       | OSkip s1', OSkip s2' => live_equiv e s1' s2' r
@@ -549,8 +549,8 @@ Lemma same_out_live D (P : N -> Prop) out1 : forall out2,
                         forall x, P x -> (In x (o_rcpt o1) <-> In x (o_rcpt o2))) out1 out2.
 Proof.
   unfold same_out. induction out1 as [|o1 out1 IH]; intros [|o2 out2] H HP; cbn [map] in H; try discriminate; [constructor|].
-  injection H as Ho Hrest. constructor; [|now apply IH].
-  unfold proj_out in Ho. injection Ho as Hrep Hdat Hrc. split; [exact Hrep|]. split; [exact Hdat|].
+  injection H as Hrep Hdat Hrc Hrest. constructor; [|now apply IH].
+  split; [exact Hrep|]. split; [exact Hdat|].
   intros x Hx. assert (Hn : nD D x = true) by (unfold nD; now rewrite (HP x Hx)).
   split; intros Hin.
   - assert (Hf : In x (List.filter (nD D) (o_rcpt o1))) by (apply filter_In; auto).
